@@ -1056,7 +1056,8 @@ struct Checked {
 }
 
 /// Shape oracle + model requests for one text whose expected shape is `want`.
-fn check_text(rep: &mut Report, pending: &mut Vec<Pending>, src: &str, want: &S, with_exec: bool, also_list: bool, kind: &str) -> Checked {
+fn check_text(rep: &mut Report, pending: &mut Vec<Pending>, src: &str, want: &S, with_exec: bool, to_model: (bool, bool), kind: &str) -> Checked {
+    let (with_parse, also_list) = to_model;
     let (obs, val) = ast_obs_value(src);
     rep.count(Some(src));
     rep.bump(&format!("text:{}", kind));
@@ -1078,7 +1079,9 @@ fn check_text(rep: &mut Report, pending: &mut Vec<Pending>, src: &str, want: &S,
             }
         }
     }
-    pending.push(Pending { request: format!("parse {}", hex(src.as_bytes())), implementation: obs.clone(), level: 5, input: format!("AST of: {}", src) });
+    if with_parse {
+        pending.push(Pending { request: format!("parse {}", hex(src.as_bytes())), implementation: obs.clone(), level: 5, input: format!("AST of: {}", src) });
+    }
     if also_list {
         pending.push(Pending {
             request: format!("parselist {}", hex(src.as_bytes())),
@@ -1136,7 +1139,7 @@ fn queue_spec(rep: &mut Report, pending: &mut Vec<Pending>, u: &U, min_text_sing
     }
 }
 
-fn do_item(rep: &mut Report, pending: &mut Vec<Pending>, item: &Item, idx: usize) {
+fn do_item(rep: &mut Report, pending: &mut Vec<Pending>, item: &Item, idx: usize, thorough: bool) {
     match item {
         Item::Flat { ops, pre, literal } => {
             let xs: Vec<U> = (0..pre.len()).map(|i| prefixed(i, pre[i], *literal)).collect();
@@ -1152,7 +1155,9 @@ fn do_item(rep: &mut Report, pending: &mut Vec<Pending>, item: &Item, idx: usize
                 }
             }
             let with_model_exec = idx % 16 == 0;
-            let c = check_text(rep, pending, &src, &want, true, idx % 4 == 0, "flat");
+            // the oracle runs on every sequence; in the thorough tier the model is asked about every second triple
+            let sparse = thorough && n_ops >= 3 && !tern;
+            let c = check_text(rep, pending, &src, &want, true, (!sparse || idx % 2 == 0, idx % (if sparse { 8 } else { 4 }) == 0), "flat");
             if let Some(got) = &c.exec {
                 check_value(rep, &src, got, &want);
                 if with_model_exec {
@@ -1160,7 +1165,7 @@ fn do_item(rep: &mut Report, pending: &mut Vec<Pending>, item: &Item, idx: usize
                 }
             }
             // the flat text has no parentheses: it must be the minimal rendering of its tree
-            if idx % 4 == 1 {
+            if idx % (if sparse { 8 } else { 4 }) == 1 {
                 queue_spec(rep, pending, &want_u, &src, nest(&want_u));
             }
             rep.sample(json!({"src": src, "expected_shape": format!("{:?}", want), "result": c.exec}));
@@ -1196,7 +1201,7 @@ fn do_item(rep: &mut Report, pending: &mut Vec<Pending>, item: &Item, idx: usize
                     });
                     continue;
                 }
-                let c = check_text(rep, pending, text, &want, true, kind == "random", kind);
+                let c = check_text(rep, pending, text, &want, true, (true, kind == "random"), kind);
                 if let Some(got) = c.exec {
                     check_value(rep, text, &got, &want);
                     results.push((text.clone(), got));
@@ -1262,7 +1267,7 @@ fn run_items(opts: &Opts, items: &[Item], rep: &mut Report) {
                         let hi = (lo + chunk).min(items.len());
                         let mut pending = Vec::new();
                         for i in lo..hi {
-                            do_item(&mut local, &mut pending, &items[i], i);
+                            do_item(&mut local, &mut pending, &items[i], i, opts.thorough);
                         }
                         let reqs: Vec<String> = pending.iter().map(|p| p.request.clone()).collect();
                         local.model_requests += reqs.len() as u64;
@@ -1414,7 +1419,7 @@ fn malformed(rng: &mut Rng, n: usize, items: &mut Vec<Item>) {
 pub fn run(opts: &Opts) -> Report {
     let mut rep = Report::new(
         "C02",
-        "flat sequences `x0 op x1 …` over the 14 binary operators with a unary prefix ('', !, !!, -, --) on every operand: all with 1 and 2 operators, all (thorough) / every operator triple + a sample (quick) with 3, every placement of one ?: among them; the expected tree is computed from the level table of the property text. Random operator trees (any operator anywhere incl. postfix chains, list literals, other literals; and well-typed int/bool trees) to depth 10 rendered with minimal, full and random parentheses and random blanks/tabs/newlines: real Program::ast() with spans/wrappers/Parens dropped must be the tree, results of all renderings equal and equal to a reference evaluation; malformed token streams (no panic, same accept/reject as the model). Model: AST with spans (lazy and token-list parser), exec result, and the spec functions of the theorems (derivability, nesting, minimal rendering) against the harness's own. Non-trivial = distinct source text",
+        "flat sequences `x0 op x1 …` over the 14 binary operators with a unary prefix ('', !, !!, -, --) on every operand: all with 1 and 2 operators, all (thorough) / every operator triple + a sample (quick) with 3, every placement of one ?: among them; the expected tree is computed from the level table of the property text. Random operator trees (any operator anywhere incl. postfix chains, list literals, other literals; and well-typed int/bool trees) to depth 10 rendered with minimal, full and random parentheses and random blanks/tabs/newlines: real Program::ast() with spans/wrappers/Parens dropped must be the tree, results of all renderings equal and equal to a reference evaluation; malformed token streams (no panic, same accept/reject as the model). Model: AST with spans (lazy parser on every text, in the thorough tier on every second 3-operator sequence; token-list parser on a fixed fraction), exec result, and the spec functions of the theorems (derivability, nesting, minimal rendering) against the harness's own. Non-trivial = distinct source text",
     );
     let mut rng = Rng::new(opts.seed ^ 0xC02);
     let mut items: Vec<Item> = Vec::new();
